@@ -202,7 +202,8 @@ def schedules(ctx):
         times = {b for s, _ in seqs for a, b, c in s}
         uncond = times if uncond is None else (uncond & times)
     seen_any = any(s for seqs in table.values() for s, _ in seqs)
-    if not seen_any:
+    unread = any(b is None for seqs in table.values() for s, _ in seqs for a, b, c in s)
+    if not seen_any or unread:
         # the clock generates its events in a way the event table does not read (streams zipped per event type, ...): not claimed either way
         ctx.undecided('C13.S4', 'the schedule times 14:30 and 21:00 are events the clock emits unconditionally', None, 'no event of the clock was recognised')
     else:
